@@ -62,7 +62,8 @@ def sort_tasks(p, ctx):
     mode = TaskPriorityRuleMode(p["mode"])
     tasks = []
     for i in range(n):
-        t = BaseTask("t%d" % i, ID="t%d" % i, default_work_amount=p["w%d" % i])
+        # every task carries the same name: the documented keys do not depend on names
+        t = BaseTask("task", ID="t%d" % i, default_work_amount=p["w%d" % i])
         t.est = p["e%d" % i]
         t.lst = p["l%d" % i]
         t.remaining_work_amount = p["r%d" % i]
@@ -260,16 +261,27 @@ def integration_obligations(tier):
         obs.append(ob)
     for rule in range(9):
         for shape, es in (("indep", []), ("fork", [(0, 1, 0), (0, 2, 0)]), ("join", [(0, 2, 0), (1, 2, 0)])):
-            for nw in (1, 2):
-                for variant in ("plain", "skills", "fix"):
+            for nw in (1, 2, 3):
+                for variant in ("plain", "skills", "fix", "solo-middle"):
+                    if (nw == 3) != (variant == "solo-middle"):
+                        continue
                     tasks = [{"w": "$w%d" % i} for i in range(3)]
                     if variant == "fix":
                         tasks[1]["fixw"] = [0]
                     ws = [{"skills": {str(i): ("$s%d" % i if (variant == "skills" and w == 0) else 1) for i in range(3)}, "abs": (["$a0"] if w == 0 else [])} for w in range(nw)]
+                    if variant == "solo-middle":
+                        # candidate order by the SSP worker rule (skill sum): worker 0 < worker 1 (solo) < worker 2
+                        ws[0]["skills"] = {"0": 1, "1": 1}
+                        ws[1] = {"skills": {"0": 1, "1": 1, "2": "$s12"}, "solo": True}
+                        ws[2]["skills"] = {"0": 2, "1": 2, "2": 2}
+                        for t in tasks:
+                            t["wrule"] = 0
                     spec = {"tasks": tasks, "edges": [list(e) for e in es], "teams": [{"targets": [0, 1, 2], "workers": ws}], "run": {"max_time": 12, "rule": rule}}
                     params = [["w%d" % i, 1, 3 if thorough else 2] for i in range(3)] + [["a0", -1, 2]]
                     if variant == "skills":
                         params += [["s%d" % i, 0, 2] for i in range(3)]
+                    if variant == "solo-middle":
+                        params += [["s12", 0, 2]]
                     obs.append({"name": "alloc/rule=%d/%s/W=%d/%s" % (rule, shape, nw, variant), "harness": "sim", "cube": {"spec": spec}, "params": params,
                                 "timeout": 900 if thorough else 150, "engine": "zsym"})
     return obs
